@@ -27,7 +27,9 @@
     DTD                       = arm p (on_enter_wait: detector ready), insert t p (one more task)
     pending runtime actions   = startupReady t n (a startup hook sets n pending actions and declares the detector
                                 ready), actionDone t q (a callback releases one action of q; the last release detects q's
-                                termination and runs q's callback nested: Sub.ncb q), nestDec t (active -= 1 for q)
+                                termination and runs q's callback nested — q is pushed on the thread's `nests` stack; such a
+                                nested callback may itself add a taskpool or release the last action of yet another taskpool),
+                                nestDec t (active -= 1 for the innermost nested taskpool)
 
   Every applied step stamps the objects it touches with a global clock (this mirrors the stamps the
   harness takes from one global atomic counter), so that "before/after" statements are arithmetic.
@@ -58,10 +60,8 @@ deriving Repr
 inductive Base | idle | task (p : Nat) | cb (p : Nat)
 deriving Repr, DecidableEq
 
-/-- inside parsec_context_add_taskpool(q): before the increment (`adding`), after it (`startup`);
-    `ncb q`: inside parsec_taskpool_termination_detected(q) NESTED in the completion callback the thread
-    is running (the callback released the last pending action of q) -/
-inductive Sub | none | adding (q : Nat) | startup (q : Nat) | ncb (q : Nat)
+/-- inside parsec_context_add_taskpool(q): before the increment (`adding`), after it (`startup`) -/
+inductive Sub | none | adding (q : Nat) | startup (q : Nat)
 deriving Repr, DecidableEq
 
 inductive WMode | parked | looping | exited
@@ -78,6 +78,8 @@ structure St where
   wm : List WMode
   bases : List Base
   subs : List Sub
+  nests : List (List Nat)   -- per thread: the taskpools whose termination was detected NESTED in the completion callback the
+                            -- thread is running (a callback released their last pending action), innermost first
   tps : List Tp
   clock : Nat
   epochEnd : Nat
@@ -98,7 +100,8 @@ deriving Repr, DecidableEq
 /-- initial state: `k` workers (so `k+1` threads), the given taskpools, nothing added, not started -/
 def init (k : Nat) (tps : List Tp) : St :=
   { active := 0, started := false, token := false, mm := .out, wm := List.replicate k .parked,
-    bases := List.replicate (k + 1) .idle, subs := List.replicate (k + 1) .none, tps := tps,
+    bases := List.replicate (k + 1) .idle, subs := List.replicate (k + 1) .none,
+    nests := List.replicate (k + 1) [], tps := tps,
     clock := 1, epochEnd := 0, waitRets := [], tpWaitRets := [] }
 
 def isTpWait : MMode → Bool
@@ -196,8 +199,10 @@ def step? (s : St) : Tr → Option St
     | some (.cb p), some .none =>
       match s.tps[p]? with
       | some tp =>
-        some (tick { s with active := s.active - 1, bases := s.bases.set t .idle,
-                            tps := s.tps.set p { tp with st := .done, decAt := s.clock } })
+        if s.nests[t]? = some [] then
+          some (tick { s with active := s.active - 1, bases := s.bases.set t .idle,
+                              tps := s.tps.set p { tp with st := .done, decAt := s.clock } })
+        else none
       | none => none
     | _, _ => none
   | .addCall t q =>
@@ -288,21 +293,21 @@ def step? (s : St) : Tr → Option St
     | some (.cb _), some .none, some tp =>
       if tp.st = .added ∧ 0 < tp.pend then
         if tp.ready = true ∧ tp.pend = 1 ∧ tp.ended = tp.total ∧ tp.started = tp.total then
-          some (tick { s with subs := s.subs.set t (.ncb q),
+          some (tick { s with nests := s.nests.set t (q :: (s.nests[t]?).getD []),
                               tps := s.tps.set q { tp with pend := 0, st := .inCbN, cbs := tp.cbs + 1, cbAt := s.clock, by_ := t } })
         else
           some (tick { s with tps := s.tps.set q { tp with pend := tp.pend - 1 } })
       else none
     | _, _, _ => none
   | .nestDec t =>
-    match s.subs[t]? with
-    | some (.ncb q) =>
+    match s.subs[t]?, s.nests[t]? with
+    | some .none, some (q :: rest) =>
       match s.tps[q]? with
       | some tp =>
-        some (tick { s with active := s.active - 1, subs := s.subs.set t .none,
+        some (tick { s with active := s.active - 1, nests := s.nests.set t rest,
                             tps := s.tps.set q { tp with st := .done, decAt := s.clock } })
       | none => none
-    | _ => none
+    | _, _ => none
 
 def step (s : St) (tr : Tr) : St := (step? s tr).getD s
 
